@@ -512,8 +512,8 @@ where
 
     fn output_frames_max(&self) -> usize {
         // Set length to chunksize*ratio plus a safety margin of 10 elements.
-        (self.max_chunk_size as f64 * self.resample_ratio_original * self.max_relative_ratio + 10.0)
-            as usize
+        (self.max_chunk_size as f64 * (self.resample_ratio_original * self.max_relative_ratio)
+            + 10.0) as usize
     }
 
     fn output_frames_next(&self) -> usize {
